@@ -1,6 +1,6 @@
 #include <xtl/xcompare.hpp>
 #include <cstdio>
-int main() { int t = (int)(-1073470464LL); unsigned int u = (unsigned int)(2818572289LL); __int128 a = t, b = u; int bad = 0;
+int main() { int t = (int)(-2112847872LL); unsigned int u = (unsigned int)(2147483904LL); __int128 a = t, b = u; int bad = 0;
 #define CK(f, op) { bool r = xtl::f(t, u); bool e = (a op b); if (r != e) { std::printf(#f "(%lld, %llu as given types) = %d, mathematical comparison gives %d\n", (long long)t, (unsigned long long)u, (int)r, (int)e); bad = 1; } }
  CK(cmp_equal, ==) CK(cmp_not_equal, !=) CK(cmp_less, <) CK(cmp_greater, >) CK(cmp_less_equal, <=) CK(cmp_greater_equal, >=)
  return bad; }
